@@ -1,0 +1,24 @@
+//go:build verif
+
+package target
+
+import (
+	"sync"
+
+	"github.com/sdcio/data-server/pkg/config"
+	schemaClient "github.com/sdcio/data-server/pkg/datastore/clients/schema"
+	"github.com/sdcio/data-server/pkg/datastore/target/netconf"
+)
+
+// NewNCTargetWithDriver builds the NETCONF target around the given driver
+// instead of dialing the device. Verification harness only.
+func NewNCTargetWithDriver(name string, cfg *config.SBI, sc schemaClient.SchemaClientBound, d netconf.Driver) Target {
+	return &ncTarget{
+		name:             name,
+		driver:           d,
+		m:                new(sync.Mutex),
+		schemaClient:     sc,
+		sbiConfig:        cfg,
+		xml2sdcpbAdapter: netconf.NewXML2sdcpbConfigAdapter(sc),
+	}
+}
